@@ -154,5 +154,60 @@ mod kani_dataptr_full {
             assert!(ZDROPS == 1);
         }
     }
-}
 
+    // an OVER-ALIGNED element (alignment above what the allocator guarantees by default, size 32): layouts, strides and the
+    // allocation path taken by grow may depend on the alignment.  BOUNDED (capacity <= 8; grow: the transitions 1 -> 2 and 2 -> 6): with the
+    // capacity symbolic over 2^24 the 32-byte stride did not finish within 15 minutes.
+    #[repr(align(32))]
+    #[derive(Clone, Copy, PartialEq)]
+    struct A32(u64);
+    const A32CAP: usize = 8;
+
+    #[kani::proof]
+    fn dataptr_grow_align32_cap8() {
+        // concrete capacity transitions (the storage's own growth sequence 0 -> 2 -> 6), symbolic position and values
+        let second: bool = kani::any();
+        let (old, new): (usize, usize) = if second { (2, 6) } else { (1, 2) };
+        let j: usize = kani::any();
+        kani::assume(j < old);
+        let mut p: DataPtr<A32> = DataPtr::with_capacity(old);
+        unsafe {
+            let vj: u64 = kani::any();
+            let vn: u64 = kani::any();
+            p.write(j, A32(vj));
+            p.grow(old, new);
+            p.write(new - 1, A32(vn));
+            let raw = p.raw_data(new);
+            assert!(raw.len() == new);
+            assert!(raw[new - 1].assume_init() == A32(vn));
+            if j != new - 1 { assert!(raw[j].assume_init() == A32(vj)); }
+            assert!((raw.as_ptr() as usize) % 32 == 0);
+            kani::cover!(old == 2 && new == 6 && j == 1);
+            kani::cover!(old == 1);
+            p.dealloc(new);
+        }
+    }
+
+    #[kani::proof]
+    fn dataptr_swap_remove_align32_cap8() {
+        let cap: usize = kani::any();
+        kani::assume(cap >= 1 && cap <= A32CAP);
+        let len: usize = kani::any();
+        kani::assume(len >= 1 && len <= cap);
+        let index: usize = kani::any();
+        kani::assume(index < len);
+        let mut p: DataPtr<A32> = DataPtr::with_capacity(cap);
+        unsafe {
+            let vi: u64 = kani::any();
+            let vl: u64 = kani::any();
+            p.write(len - 1, A32(vl));
+            p.write(index, A32(vi));
+            let before_l = if len - 1 == index { vi } else { vl };
+            let out = p.swap_remove(index, len);
+            assert!(out == A32(vi));
+            if index != len - 1 { assert!(p.slice(len)[index] == A32(before_l)); }
+            kani::cover!(index == 0 && len == cap);
+            p.dealloc(cap);
+        }
+    }
+}
